@@ -241,7 +241,7 @@ pub trait BRemapper: ARemapper {
 
 	/// Maps a [`MethodRef`], taking care of the class name as well.
 	///
-	/// If the [`MethodRef`] references an array class, no remapping of the name or descriptor is performed.
+	/// If the [`MethodRef`] references an array class, the name is kept and only the class names in the descriptor are mapped.
 	///
 	/// Do not implement this yourself.
 	fn map_method_ref(&self, method_ref: &MethodRef) -> Result<MethodRef> {
@@ -250,7 +250,8 @@ pub trait BRemapper: ARemapper {
 		} else {
 			MethodNameAndDesc {
 				name: method_ref.name.clone(),
-				desc: method_ref.desc.clone(), // an array's class method can only contain descriptors with names from the JDK
+				// an array's class method can only contain descriptors with names from the JDK, which can be mapped as well
+				desc: self.map_method_desc(&method_ref.desc)?,
 			}
 		};
 		let class_name = self.map_class_any(&method_ref.class)?;
